@@ -159,6 +159,13 @@ def check(rep: Report, ctx: Ctx) -> None:
         rep.obligations.append(o)
     rep.funcs_seen |= sub.funcs_seen
 
+    # ---- R15.8 ---------------------------------------------------------------
+    rep.rule("R15.8", "a re-run derives its time window from this run's "
+             "ingestion only (no state of the store feeds the bounds the "
+             "destructive trim works from)", 1)
+    from .c11 import bounds_writers
+    bounds_writers(rep, ctx, "R15.8")
+
     # ---- R15.5 ---------------------------------------------------------------
     rep.rule("R15.5", "opening the store never resets it", 2)
     fetch = ctx.func("fetch_data_holder")
